@@ -11,7 +11,7 @@ import math
 
 from . import loops as LP
 from .loops import INF, loop_info, first_fail, icmp_eval, NEG, SWAP
-from .vals import (Aff, Aborted, FnPtr, NeedEnum, Obj, Opaque, OPAQUE, UNINIT, Ptr, Unsupported, aff_add, aff_mul, aff_parts,
+from .vals import (AlignDep, PtrBits, Aff, Aborted, FnPtr, NeedEnum, Obj, Opaque, OPAQUE, UNINIT, Ptr, Unsupported, aff_add, aff_mul, aff_parts,
                    is_int, mask, mk_aff, signed)
 
 
@@ -35,7 +35,7 @@ class NonAff:
 
 
 class Event:
-    __slots__ = ('kind', 'obj', 'off', 'size', 'reps', 'loc', 'stack', 'via', 'align', 'may', 'seq', 'note', 'val')
+    __slots__ = ('kind', 'obj', 'off', 'size', 'reps', 'loc', 'stack', 'via', 'align', 'may', 'seq', 'note', 'val', 'slack')
 
     def __init__(self, kind, obj, off, size, reps, loc, stack, via=None, align=0, may=False, note=None, val=None):
         self.kind = kind    # R W F(free) A(alloc) X(problem)
@@ -50,6 +50,7 @@ class Event:
         self.may = may
         self.note = note
         self.val = val      # 'zero' for stores of a constant 0 / memset 0, else None
+        self.slack = 0
 
     def __repr__(self):
         return '<%s %s+%s [%s] x%s @%s>' % (self.kind, self.obj.name if self.obj else None, self.off, self.size,
@@ -121,8 +122,10 @@ class Machine:
             return
         if len(self.events) >= self.event_cap:
             raise Unsupported('event cap exceeded')
-        self.events.append(Event(kind, obj, off, size, tuple((k, c) for k, c in self.reps), loc, tuple(self.stack), via, align,
-                                 may, note, val))
+        ev = Event(kind, obj, off, size, tuple((k, c) for k, c in self.reps), loc, tuple(self.stack), via, align, may, note, val)
+        if isinstance(ptr, Ptr) and ptr.slack:
+            ev.slack = ptr.slack
+        self.events.append(ev)
 
     # ------------------------------------------------------------------------------------------ objects
     def global_obj(self, unit, name):
@@ -622,20 +625,54 @@ class Machine:
                         return x if isinstance(x, NonAff) else self._unknown_ptr(a)
                     return self._ptr(a, r)
                 return OPAQUE
+            if op == 'and' and isinstance(b, Ptr) and is_int(a):
+                a, b = b, a
             if op == 'and' and isinstance(a, Ptr) and is_int(b):
-                # align-down idiom  p & -2^t
                 low = (~b) & m
+                al = getattr(a.obj, 'align', 8)
                 if low & (low + 1) == 0 and is_int(a.off):
-                    al = getattr(a.obj, 'align', 8)
-                    if al < low + 1:
-                        a.obj.align_slack = max(getattr(a.obj, 'align_slack', 0), low + 1 - al)
-                    return self._ptr(a, a.off & b & m)
+                    # align-down idiom  p & -2^t (usually after + 2^t - 1)
+                    if al >= low + 1:
+                        return self._ptr(a, a.off & b & m)
+                    # the object is only `al`-aligned: the result is one of x - (x mod al) - al*j, j = 0 .. 2^t/al - 1
+                    x = a.off
+                    hi = x - (x % al)
+                    lo = hi - (low + 1 - al)
+                    return self._ptr(a, lo & m, slack=a.slack + (low + 1 - al))
                 if low & (low + 1) == 0 and isinstance(a.off, Aff):
                     return NonAff(next(iter(a.off.co)))
                 if b < 4096 and is_int(a.off):
-                    # p & small mask : misalignment test; decided as if the object were aligned (alignment-dependent branch)
-                    return a.off & b
+                    # p & small mask: the low address bits
+                    if b & (al - 1) == b and a.slack == 0:
+                        return a.off & b
+                    return AlignDep(a.off & b)
                 return OPAQUE
+            if op in ('or', 'and', 'xor') and (isinstance(a, (Ptr, PtrBits)) and isinstance(b, (Ptr, PtrBits))):
+                ps = []
+                for x in (a, b):
+                    ps += [x] if isinstance(x, Ptr) else list(x.ptrs)
+                return PtrBits(tuple(ps))
+            return OPAQUE
+        if isinstance(a, PtrBits) or isinstance(b, PtrBits):
+            pb, o = (a, b) if isinstance(a, PtrBits) else (b, a)
+            if op == 'and' and is_int(o) and o < 4096 and all(is_int(p.off) for p in pb.ptrs):
+                al = min(getattr(p.obj, 'align', 8) for p in pb.ptrs)
+                val = 0
+                for p in pb.ptrs:
+                    val |= p.off & o
+                if o & (al - 1) == o and not any(p.slack for p in pb.ptrs):
+                    return val
+                return AlignDep(val)
+            if op in ('or', 'and', 'xor') and isinstance(o, (Ptr, PtrBits)):
+                return PtrBits(tuple(pb.ptrs) + (tuple(o.ptrs) if isinstance(o, PtrBits) else (o,)))
+            return OPAQUE
+        if isinstance(a, AlignDep) or isinstance(b, AlignDep):
+            x = a.assume if isinstance(a, AlignDep) else a
+            y = b.assume if isinstance(b, AlignDep) else b
+            if is_int(x) and is_int(y):
+                r = self.binop(op, x, y, bits, i)
+                if is_int(r):
+                    return AlignDep(r)
             return OPAQUE
         if isinstance(a, (Opaque, float)) or isinstance(b, (Opaque, float)) or a is None or b is None:
             if isinstance(a, NonAff):
@@ -669,13 +706,19 @@ class Machine:
             return self._nonaff_of(a)
         return self._nonaff_of(a, b)
 
-    def _ptr(self, p, off):
-        return Ptr(p.obj, off, p.via)
+    def _ptr(self, p, off, slack=None):
+        return Ptr(p.obj, off, p.via, p.slack if slack is None else slack)
 
     def _unknown_ptr(self, p):
         return OPAQUE
 
     def icmp(self, pred, a, b, bits, i):
+        if isinstance(a, AlignDep) or isinstance(b, AlignDep):
+            x = a.assume if isinstance(a, AlignDep) else a
+            y = b.assume if isinstance(b, AlignDep) else b
+            if is_int(x) and is_int(y):
+                return AlignDep(int(icmp_eval(pred, x, y, bits)))
+            return OPAQUE
         if isinstance(a, NonAff) or isinstance(b, NonAff):
             raise NeedEnum((a if isinstance(a, NonAff) else b).key, 'comparison at %s' % i.loc)
         if isinstance(a, Ptr) or isinstance(b, Ptr):
@@ -765,6 +808,8 @@ class Machine:
         raise NeedEnum(key, 'guard depends on the loop counter at %s' % i.loc)
 
     def cast(self, op, v, i):
+        if isinstance(v, (AlignDep, PtrBits)) and op in ('zext', 'sext', 'trunc', 'ptrtoint', 'inttoptr', 'bitcast'):
+            return v
         sb = i['srcty'].get('bits')
         db = i.ty.get('bits')
         if i.ty.get('k') == 'vec' or i['srcty'].get('k') == 'vec':
@@ -1080,6 +1125,9 @@ class Machine:
             a, b = self.ref(fr, i.ops[1]), self.ref(fr, i.ops[2])
             if is_int(c):
                 env[i.id] = a if c & 1 else b
+            elif isinstance(c, AlignDep):
+                self.emit('X', None, 0, i.loc, note='alignment-dependent select: the value depends on the address bits of a caller buffer')
+                env[i.id] = a if c.assume & 1 else b
             else:
                 env[i.id] = a if self._same(a, b) else OPAQUE
         elif op == 'call':
@@ -1211,6 +1259,10 @@ class Machine:
 
     def data_branch(self, fr, i, c):
         """branch on a data value: only the assertion idiom `if (table data inconsistent) abort();` is in the catalogue"""
+        if isinstance(c, AlignDep) and i.op == 'br':
+            # the path taken depends on the byte alignment of a caller buffer: reported, then followed as if aligned
+            self.emit('X', None, 0, i.loc, note='alignment-dependent branch: the path depends on the address bits of a caller buffer')
+            return ('goto', i['then'] if c.assume & 1 else i['else'])
         if i.op == 'br':
             err = self._abort_blocks(fr.f)
             t, e = i['then'], i['else']
